@@ -423,6 +423,7 @@ CURATED = [
     ("Q", ("T", [("H",), ("S", -1, "g")]), 3),
     ("T", [("R", True, False), ("G", ("O", [("S", None, "a"), ("D", [1, 2], ["-", "+"])]), None)]),
     ("Q", ("G", ("H",), (1, 2)), 1),
+    ("Q", ("G", ("H",), (2, 2)), 3),
     ("T", [("Q", ("M", 2, 5), 7), ("I",)]),
     ("G", ("O", [("S", "..", "a"), ("D", ["?"], ["."])]), (2, 3)),
     ("T", []),
